@@ -41,6 +41,7 @@ type Contract struct {
 	Lets     []*LetDef
 	Sums     bool // ghost sums UT/UTA are maintained while verifying this function
 	Covers   []string // extra properties whose obligations (callee demands) arise inside this function
+	Promote  map[string][]string // callee-demand label -> further properties it is claimed under in this function
 	Hints    []*HintAt // lemma-instance hints (use_* only) assumed right after a call site
 }
 
@@ -78,7 +79,7 @@ type SpecDB struct {
 }
 
 var clauseKeywords = map[string]bool{"func": true, "loop": true, "requires": true, "ensures": true, "modifies": true,
-	"sweep": true, "modular": true, "trusted": true, "invariant": true, "pure": true, "unroll": true, "names": true, "let": true, "end": true, "sums": true, "demands": true, "covers": true, "hint": true, "lemma": true}
+	"sweep": true, "modular": true, "trusted": true, "invariant": true, "pure": true, "unroll": true, "names": true, "let": true, "end": true, "sums": true, "demands": true, "covers": true, "promote": true, "hint": true, "lemma": true}
 
 func ParseSpecs(lines []SpecLine) *SpecDB {
 	db := &SpecDB{Contracts: map[string]*Contract{}, Pures: map[string]*PureDef{}}
@@ -209,6 +210,20 @@ func ParseSpecs(lines []SpecLine) *SpecDB {
 			cur.Sums = true
 		case "covers":
 			cur.Covers = append(cur.Covers, parseProps(it.rest)...)
+		case "promote":
+			// promote [C08] label...: callee demands with these labels that arise in this function are ALSO claimed under the listed properties
+			rest := strings.TrimSpace(it.rest)
+			i := strings.Index(rest, "]")
+			if !strings.HasPrefix(rest, "[") || i < 0 {
+				errf(it, "promote [props] label...")
+				break
+			}
+			if cur.Promote == nil {
+				cur.Promote = map[string][]string{}
+			}
+			for _, lab := range strings.Fields(rest[i+1:]) {
+				cur.Promote[lab] = append(cur.Promote[lab], parseProps(rest[:i+1])...)
+			}
 		case "hint":
 			// hint <site> : <expr built from use_* only>
 			i := strings.Index(it.rest, ":")
